@@ -14,7 +14,7 @@ CHECK = dict(
          "acceptance plan, location style, partial mode, refuse/early/mount/min-chunk settings, fault plan, source kind, algorithm).",
     jobs=[REPLAY,
           plain("grid", "TestVerifGrid", sq=2, st=8, timeout=dict(quick=900, thorough=3000)),
-          rapid("prop", "TestVerifProp", 320_000, 6_000_000, sq=14, st=16, timeout=dict(quick=900, thorough=3000))],
+          rapid("prop", "TestVerifProp", 400_000, 6_000_000, sq=14, st=16, timeout=dict(quick=900, thorough=3000))],
     technique="property-based testing (rapid) of the public BlobPut API against an in-process model registry that owns the transport (strict: verifies Content-Range continuity "
               "and the closing digest; lax: appends what it says it accepted and verifies nothing, so the bytes the client really sent become visible) and against fresh OCI "
               "layout directories; oracle reads raw destination storage; plus an exhaustive sweep of the chunk loop over (length, chunk size, accepted offset)",
